@@ -92,8 +92,46 @@ def same_state(o, saved) -> bool:
     return True
 
 
+def changed(o, saved, c: Counter) -> bool:
+    """Did a refused call change the auction?  A difference in the attribute snapshot counts only if it can be OBSERVED: in the
+    public state (history, per-seat lists, turn, availability vector, contract) or in the answer to any of the 38 calls offered
+    next.  A private attribute that changed without any observable effect (a cache filled, a counter of refusals) is recorded in
+    the evidence and is not a violation - the statement speaks of history, turn and available calls."""
+    if same_state(o, saved):
+        return False
+
+    def futures(x):
+        out = []
+        for idx in range(38):
+            y = clone(x)
+            r = apply_call(y, idx)
+            out.append((fmt(r) if not isinstance(r, Exception) else type(r).__name__, _pub(y)))
+        return out
+    if _pub(o) != _pub(saved) or futures(o) != futures(saved):
+        return True
+    c.inc('private_state_changed_without_observable_effect')
+    return False
+
+
+def _pub(o):
+    try:
+        con = o.contract()
+        con = None if con is None else (str(con), con.x, con.xx, str(con.vul), str(con.declarer))
+    except Exception as e:  # noqa
+        con = type(e).__name__
+    ob = observe(o)
+    return (ob['active'], ob['done'], tuple(ob['history']), tuple(sorted((k, tuple(v)) for k, v in ob['per_seat'].items())),
+            tuple(ob['mask']) if isinstance(ob['mask'], list) else ob['mask'], con)
+
+
 def clone(o):
-    n = object.__new__(type(o))
+    """Independent copy of an auction object.  If the class defines its own copy protocol (__deepcopy__ / __copy__) that protocol is
+    what users of the library get from copy.deepcopy, so it is what the search uses: a copy that shares anything with its original
+    then shows up as cross-talk between branches of the search."""
+    t = type(o)
+    if getattr(t, '__deepcopy__', None) is not None or getattr(t, '__copy__', None) is not None or getattr(t, '__reduce_ex__', None) is not object.__reduce_ex__:
+        return copy.deepcopy(o)
+    n = object.__new__(t)
     n.__dict__.update({k: fastcopy(v) for k, v in vars(o).items()})
     return n
 
@@ -235,7 +273,7 @@ def explore(dealer: str, vul: str, cell: Optional[Tuple[str, str]], c: Counter, 
                 rp = {'kind': 'auction', 'dealer': dealer, 'vul': vul, 'history': list(hist), 'call': CALLS[idx]}
                 if fin_ref and not isinstance(r, Exception):
                     c.violate(f'C02:after_end:{CALLS[idx]}', f'call {CALLS[idx]} after the finished auction {hist} returned {r} instead of raising', rp)
-                if fin_ref and not same_state(o, before):
+                if fin_ref and changed(o, before, c):
                     c.violate(f'C02:after_end_changed:{CALLS[idx]}', f'call {CALLS[idx]} after the finished auction {hist} changed the state', rp)
                     break
             continue
@@ -248,14 +286,24 @@ def explore(dealer: str, vul: str, cell: Optional[Tuple[str, str]], c: Counter, 
             rp = {'kind': 'auction', 'dealer': dealer, 'vul': vul, 'history': list(hist), 'call': name}
             if name not in legal:
                 c.inc('illegal_offered')
-                r = apply_call(o, idx)
+                o3 = clone(o)
+                r = apply_call(o3, idx)
                 if r is not BiddingPhaseState.ILLEGAL:
                     c.violate(f'C01:accepted_illegal:{klass(hist, name, dealer)}',
                               f'illegal call {name} after {hist} (dealer {dealer}) was answered {fmt(r)} instead of ILLEGAL', rp)
-                if not same_state(o, before):
-                    c.violate(f'C01:illegal_changed:{klass(hist, name, dealer)}',
-                              f'rejected/illegal call {name} after {hist} changed the auction state', rp)
-                    o = clone(before)
+                    continue
+                if not same_state(o3, before):
+                    if changed(o3, before, c):
+                        c.violate(f'C01:illegal_changed:{klass(hist, name, dealer)}',
+                                  f'rejected/illegal call {name} after {hist} changed the auction state', rp)
+                        continue
+                    # something private changed without an effect that can be seen at once: the object after the refusal is a state of its
+                    # own (same history) and is explored like any other, so that a later effect of the refusal meets the oracle
+                    k3 = (canon(o3, hist, cell) if merge else tuple(hist)) + ('after-refusal',)
+                    if k3 not in seen and len(seen) < max_states:
+                        seen[k3] = non_history_part(o3) if merge else None
+                        frontier.append((o3, hist))
+                        c.inc('states_after_a_refusal')
                 continue
             o2 = clone(o)
             r = apply_call(o2, idx)
@@ -264,7 +312,7 @@ def explore(dealer: str, vul: str, cell: Optional[Tuple[str, str]], c: Counter, 
             if r is BiddingPhaseState.ILLEGAL or isinstance(r, Exception):
                 c.violate(f'C01:refused_legal:{klass(hist, name, dealer)}',
                           f'legal call {name} after {hist} (dealer {dealer}) was answered {fmt(r)}', rp)
-                if not same_state(o2, before):
+                if changed(o2, before, c):
                     c.violate(f'C01:illegal_changed:{klass(hist, name, dealer)}',
                               f'rejected call {name} after {hist} changed the auction state', rp)
                 continue
@@ -362,7 +410,7 @@ def run_walk(dealer: str, vul: str, walk: List[str], c: Counter, offer_all_every
                 c.violate(f'C01:accepted_illegal:{klass(hist, n2, dealer)}', f'illegal call {n2} after a {len(hist)}-call history '
                                                                               f'was answered {fmt(r)}', rp)
                 o = rebuild(dealer, vul, hist)
-            elif not same_state(o, before):
+            elif changed(o, before, c):
                 c.violate(f'C01:illegal_changed:{klass(hist, n2, dealer)}', f'rejected call {n2} after a {len(hist)}-call history changed the state', rp)
                 o = rebuild(dealer, vul, hist)
         assert name in legal, (hist, name)
@@ -381,11 +429,11 @@ def run_walk(dealer: str, vul: str, walk: List[str], c: Counter, offer_all_every
     c.inc('long_walks')
     if not R.finished(hist):
         raise AssertionError('walk does not finish')
-    before = dump(o)
+    before = clone(o)
     for idx in range(38):
         r = apply_call(o, idx)
         c.inc('transitions')
-        if not isinstance(r, Exception) or dump(o) != before:
+        if not isinstance(r, Exception) or changed(o, before, c):
             c.violate(f'C02:after_end:{CALLS[idx]}', f'call {CALLS[idx]} after a finished {len(hist)}-call auction: {fmt(r)}',
                       {'kind': 'auction', 'dealer': dealer, 'vul': vul, 'history': list(hist), 'call': CALLS[idx]})
 
@@ -421,14 +469,15 @@ def replay(d):
     check_state(o, hist, dealer, vul, c, 'replay')
     if 'call' in d:
         legal = R.legal(hist, dealer)
-        before = dump(o)
+        before = clone(o)
         r = apply_call(o, CALLS.index(d['call']))
         if R.finished(hist):
-            if not isinstance(r, Exception) or dump(o) != before:
+            if not isinstance(r, Exception) or changed(o, before, c):
                 c.violate('after_end', f'call {d["call"]} after finished auction: {fmt(r)}')
         elif d['call'] not in legal:
-            if r is not BiddingPhaseState.ILLEGAL or dump(o) != before:
-                c.violate('illegal', f'illegal call {d["call"]} answered {fmt(r)}, state changed: {dump(o) != before}')
+            ch = changed(o, before, c)
+            if r is not BiddingPhaseState.ILLEGAL or ch:
+                c.violate('illegal', f'illegal call {d["call"]} answered {fmt(r)}, state changed: {ch}')
         else:
             if r is BiddingPhaseState.ILLEGAL or isinstance(r, Exception):
                 c.violate('legal', f'legal call {d["call"]} answered {fmt(r)}')
